@@ -11,7 +11,9 @@ from common import hexs
 
 SHIM = os.path.join(common.VERIF, 'shim', 'libvfio.so')
 ZONES = [None, '', 'UTC', 'Europe/Stockholm', 'America/New_York', 'Australia/Lord_Howe', 'Asia/Kolkata', 'America/St_Johns',
-         'CET-1CEST,M3.5.0,M10.5.0/3', 'EST5EDT', 'AEST-10AEDT,M10.1.0,M4.1.0/3', 'JST-9', 'Pacific/Chatham']
+         'CET-1CEST,M3.5.0,M10.5.0/3', 'EST5EDT', 'AEST-10AEDT,M10.1.0,M4.1.0/3', 'JST-9', 'Pacific/Chatham',
+         # local zones whose abbreviations are spelled like zone names a Date header may carry
+         'Europe/London', 'GMT0BST,M3.5.0/1,M10.5.0/2', 'UTC-3', 'UT5', 'GMT+2']
 MON = ['Jan', 'Feb', 'Mar', 'Apr', 'May', 'Jun', 'Jul', 'Aug', 'Sep', 'Oct', 'Nov', 'Dec']
 DAY = ['Mon', 'Tue', 'Wed', 'Thu', 'Fri', 'Sat', 'Sun']
 UNITS = {'seconds': 1, 'second': 1, 's': 1, 'minutes': 60, 'mi': 60, 'min': 60, 'hours': 3600, 'h': 3600, 'days': 86400, 'd': 86400,
